@@ -33,6 +33,14 @@ CHECKS.update(
         note="Exact rational arithmetic only; the float few-ulp clause and Decimal are outside; units with non-integer powers in their factor are compared by root units only.",
         design="4/C02",
     ),
+    C06=dict(
+        text="Bounded model checking of the offset calculus: the real operators (+ - * / ** unary comparisons, reflected and in-place twins on object arrays) and the two-stage "
+        "conversion run on generated offset units with symbolic scale and offset and symbolic magnitudes; unit and value of every cell of the operator x operand-kind x order x mode table "
+        "are proved equal to a rule table transcribed from the documentation (or the documented exception is raised). Default-registry temperature pairs against the independent reader; "
+        "log units with exp/log as an uninterpreted inverse pair.",
+        note="Rule table in pvlib/harness/c06.py is the oracle (transcribed from docs/user/nonmult.rst and the property statement). Exact arithmetic; real exp/log accuracy outside; scales assumed > 0.",
+        design="4/C06",
+    ),
     C20=dict(
         text="Every entry of an independently written table of standard values (about 230 units/constants, 32 prefixes, 5 temperature scales) is compared with the real registry "
         "for all magnitudes x (linear/affine map proved by z3), plus symbol and dimensionality. The solver's role is small; the strength is the independent table.",
